@@ -9,7 +9,7 @@ from harness import c16_other as OT
 
 PROP = 'C16'
 MODEL_MODULES = ['TenpyModel.Util.J', 'TenpyModel.C16.Lanczos']
-PROPS_MODULES = ['TenpyModel.C16.Props', 'TenpyModel.C16.PropsRitz']
+PROPS_MODULES = ['TenpyModel.C16.Props', 'TenpyModel.C16.PropsRitz', 'TenpyModel.C16.Props2']
 LEAN_MODULES = PROPS_MODULES
 LEVEL = 'proof'
 BUDGET = {'quick': 170, 'thorough': 1200}
